@@ -174,6 +174,11 @@ def ob_once(run, oid):
                     per_hash = True
             if not per_hash and isinstance(term, tuple):
                 per_hash = K.mentions_call(term, "is_notar_fallback") or (K.mentions_call(term, "contains") and K.mentions_call(term, "block_hash"))
+            if not per_hash and isinstance(term, tuple) and K.mentions_field(term, "notar_fallback"):
+                # `.iter().map(|c| c.block_hash()).any(|h| h == nf_cert.block_hash())`: some closure of the chain compares with the received
+                # certificate's block hash, and the held certificates' hashes are what is compared
+                per_hash = D.closure_compares_capture(prog, term, lambda t: K.mentions_call(t, "block_hash") or K.mentions(t, lambda x: x[0] == "variant" and x[2] == "NotarFallback")) and any(
+                    any(c2.name.endswith("block_hash") for c2 in fb.calls()) for x in mir.walk(term) if isinstance(x, tuple) and x and x[0] == "closure" for fb in prog.family(x[1]))
             if not per_hash:
                 # explicit search loop: every `flag = true` in the NotarFallback arm is behind block_hash(held) == block_hash(received)
                 trues = []
@@ -399,6 +404,7 @@ def check(run):
     C01.ob_is_met(run, "O3.10b")
     # "its aggregate signature verifies at every other node": check_sig accepts exactly when every present half verifies
     C09.ob_sig_table(run, "O3.11")
+    C09.ob_signature_decoding(run, "O3.14")
     # the per-block stake counters compared with the thresholds live in pool::sorted_vec
     from . import C06
     C06.ob_sorted_vec(run, "O3.13")
